@@ -1,6 +1,7 @@
 (* C01 -- threshold soundness. Property theorems only. ed_verify and sha256 are universally
    quantified: "cryptographically valid" is the verdict of the verification primitive. *)
 From CCT Require Import Prelude Hex Num Time Formats Json Auth.
+From CCT.Gen Require Pins.
 From CCT.proofs Require Import HexFacts SigFacts AuthFacts SignableFacts.
 Open Scope N_scope.
 
@@ -73,6 +74,35 @@ Example C01_witness :
   /\ verify_signable (fun _ _ _ => false) (fun b => b) ex_env (VList [ex_k1; ex_k2]) (VInt 1) (VBool false) = Err SignatureError.
 Proof. vm_compute. repeat split. Qed.
 
+(* BEGIN SOURCE PINS -- written by harness/mkpins.py; the list is what Gen/Pins.v held for the tree the model was validated against *)
+(* the functions of the package this property depends on (call-graph closure of its entry points), each with the fingerprint of its
+   logic (AST without docstrings, annotations, messages, local names): the model and the correspondence runs were validated against
+   exactly these; a change of logic in any of them breaks this obligation and the check then searches for a failing input *)
+Theorem C01_source_pinned : CCT.Gen.Pins.pinned_C01 =
+  [(U"authentication._ascii", U"5f6fc6aad21f14d47c4f");
+   (U"authentication.verify_gpg_signature", U"ccbe2bc800d02410d16b");
+   (U"authentication.verify_signable", U"1bd56f9b4f5e7bcd88d9");
+   (U"authentication.verify_signature", U"7e0a2d567df7e9f0cdd4");
+   (U"common.MixinKey.from_hex", U"a6e4e81c0b16461490a5");
+   (U"common.PrivateKey.from_bytes", U"2cb488fc935b61f65bba");
+   (U"common.PublicKey.from_bytes", U"a439db0d070397bc2b47");
+   (U"common.canonserialize", U"64fc1dee1d7349d7a920");
+   (U"common.checkformat_byteslike", U"1c9da61d15ff3a1a9f97");
+   (U"common.checkformat_gpg_fingerprint", U"86e3bb7e4431fb481dc5");
+   (U"common.checkformat_gpg_signature", U"a3c5515ffb8c9f6183ba");
+   (U"common.checkformat_hex_key", U"625afdf8f56eb4c97143");
+   (U"common.checkformat_hex_string", U"eac17f8be3d488d4b8a0");
+   (U"common.checkformat_key", U"d3466826154e389f099e");
+   (U"common.checkformat_signature", U"d544854022da28dcc399");
+   (U"common.is_gpg_signature", U"f236e9c50126a7909e84");
+   (U"common.is_hex_key", U"63c7822022cd24f926e2");
+   (U"common.is_hex_signature", U"433f44075f931ec629d6");
+   (U"common.is_hex_string", U"35e6d253e0c21ac09fca");
+   (U"common.is_signable", U"6932517519189d75eb93");
+   (U"common.is_signature", U"cc04b1fcfd687d0beea7")].
+Proof. reflexivity. Qed.
+(* END SOURCE PINS *)
+
 Print Assumptions C01_verify_signable_sound.
 Print Assumptions C01_valid_entry_meaning.
 Print Assumptions C01_counted_keys_distinct_bytes.
@@ -82,3 +112,4 @@ Print Assumptions C01_malformed_key_never_counts.
 Print Assumptions C01_malformed_value_never_counts.
 Print Assumptions C01_threshold_monotone.
 Print Assumptions C01_witness.
+Print Assumptions C01_source_pinned.
